@@ -23,6 +23,13 @@ for p in /verif/selftest/mustfail/*.patch /verif/selftest/benign/*.patch; do
     if echo "$out" | grep "^VIOLATION" | grep -q "$want"; then echo "ok   mustfail $(basename $p) -> $(echo "$out" | grep '^VIOLATION' | grep "$want" | head -1 | sed 's/.*replays.//')"; else echo "SELFTEST FAIL (missed): $(basename $p) expected $want; got: $(echo "$out" | tail -2)"; rc=1; fi
   fi
 done
+# lemma canaries: must NOT prove (an inconsistent theory would prove them)
+if [ -z "$only" ] || echo canary | grep -q "$only"; then
+  out=$(/verif/bin/rlverify func zz_canary 2>&1)
+  n=$(echo "$out" | grep -c "^== lemma zz_canary")
+  f=$(echo "$out" | grep -c "FAIL lemma:zz_canary")
+  if [ "$n" -ge 1 ] && [ "$n" = "$f" ]; then echo "ok   canary   $n lemma canaries fail as they must"; else echo "SELFTEST FAIL: lemma canary proved ($n canaries, $f failing)"; rc=1; fi
+fi
 # the seeded changes written by independent sub-agents (/verif/seeded/<prop>-<n>/patch.diff) must stay caught
 for d in /verif/seeded/*/; do
   p=$d/patch.diff
